@@ -90,6 +90,13 @@ func c09Value(c *config, w uint64, x *big.Int, label string) {
 		}
 	}
 	spell(x.String(), x, "signed decimal")
+	// leading zeros do not change a decimal literal (no octal reading)
+	if x.Sign() >= 0 {
+		spell("0"+x.String(), x, "decimal with a leading zero")
+		spell("000"+x.String(), x, "decimal with leading zeros")
+	} else {
+		spell("-0"+new(big.Int).Neg(x).String(), x, "negative decimal with a leading zero")
+	}
 	if x.Sign() >= 0 {
 		h := x.Text(16)
 		spell("u0x"+strings.ToUpper(h), x, "u0x upper case")
